@@ -370,6 +370,9 @@ func (parser *Parser) ParseExpression(depth int) (res Sexp, err error) {
 		exp, err := parser.ParseInfix(depth + 1)
 		return exp, err
 	case TokenQuote:
+		if err := parser.awaitOperand(depth); err != nil {
+			return SexpNull, err
+		}
 		expr, err := parser.ParseExpression(depth + 1)
 		if err != nil {
 			return SexpNull, err
@@ -377,18 +380,27 @@ func (parser *Parser) ParseExpression(depth int) (res Sexp, err error) {
 		return MakeList([]Sexp{env.MakeSymbol("quote"), expr}), nil
 	case TokenCaret:
 		// '^' is now our syntax-quote symbol, not TokenBacktick, to allow go-style `string literals`.
+		if err := parser.awaitOperand(depth); err != nil {
+			return SexpNull, err
+		}
 		expr, err := parser.ParseExpression(depth + 1)
 		if err != nil {
 			return SexpNull, err
 		}
 		return MakeList([]Sexp{env.MakeSymbol("syntaxQuote"), expr}), nil
 	case TokenTilde:
+		if err := parser.awaitOperand(depth); err != nil {
+			return SexpNull, err
+		}
 		expr, err := parser.ParseExpression(depth + 1)
 		if err != nil {
 			return SexpNull, err
 		}
 		return MakeList([]Sexp{env.MakeSymbol("unquote"), expr}), nil
 	case TokenTildeAt:
+		if err := parser.awaitOperand(depth); err != nil {
+			return SexpNull, err
+		}
 		expr, err := parser.ParseExpression(depth + 1)
 		if err != nil {
 			return SexpNull, err
@@ -775,6 +787,27 @@ func (parser *Parser) peekAfterSign(depth int) (tok Token, err error) {
 		}
 	}
 	return
+}
+
+// awaitOperand makes sure that a token follows a quote prefix (% ^ ~ ~@)
+// before the operand is parsed: a prefix without its operand is an
+// unfinished text, not a quotation of the end-of-input marker.
+func (parser *Parser) awaitOperand(depth int) error {
+	if depth > 0 {
+		_, err := parser.ParserPeekNextToken(0)
+		return err
+	}
+	for {
+		// at top level the end of the input may terminate the operand
+		tok, err := parser.peekAfterSign(0)
+		if err != nil || tok.typ != TokenEnd {
+			return err
+		}
+		parser.sendMe.Err = ErrMoreInputNeeded
+		if !parser.yield(parser.sendMe) {
+			return ParserHaltRequested
+		}
+	}
 }
 
 func (parser *Parser) Linenum() int {
